@@ -85,7 +85,7 @@ PROPS = {
         streams=[stream('union', 'whole', kinds=('union',), faults=0.3)],
         k2=['union'], k2_n=(80, 800),
         k2_also=[('bounds', 'CopyClone', (30, 200))],
-        direct=[('c20', (1500, 20000)), ('rejections', (1500, 15000), dict(pool=['Debug', 'PartialEq', 'Hash', 'Clone', 'Copy', 'Default', 'Eq'], kinds=('union',), key='c20r'))],
+        direct=[('c20', (1500, 20000)), ('stratified', (2000, 15000), dict(pool=['Debug', 'PartialEq', 'Hash', 'Clone', 'Copy', 'Default', 'Eq'], kinds=('union',), key='c20s')), ('rejections', (1500, 15000), dict(pool=['Debug', 'PartialEq', 'Hash', 'Clone', 'Copy', 'Default', 'Eq'], kinds=('union',), key='c20r'))],
     ),
     'C09': dict(
         title='Deref and DerefMut expose exactly the designated field',
@@ -135,7 +135,7 @@ PROPS = {
         title='Contradictory, ambiguous or misplaced attributes are rejected, not guessed',
         theorems=[],
         streams=[stream('invalid', 'outcome', faults=0.9, n=(4000, 60000))],
-        direct=[('c13', (5000, 80000)), ('c13_subsets', (1500, 20000))],
+        direct=[('c13', (5000, 80000)), ('c13_subsets', (1500, 20000)), ('stratified', (3000, 20000), dict(key='c13s'))],
     ),
     'C14': dict(
         title='Alternative attribute spellings are interchangeable',
@@ -161,7 +161,7 @@ PROPS = {
         theorems=['C17_no_panic', 'C17_no_panic_flat', 'C17_outcomes', 'C17_ok_nonempty', 'C17_inventory_matches'],
         streams=[stream('malformed', 'outcome', faults=0.9, n=(3000, 50000), errkind=False),
                  stream('malformed_union', 'outcome', kinds=('union',), faults=0.9, n=(1000, 15000), errkind=False)],
-        direct=('c17', (3000, 60000)),
+        direct=[('c17', (3000, 60000)), ('stratified', (3000, 20000), dict(key='c17s'))],
     ),
     'C18': dict(
         title='Every subset of trait features builds and behaves like the full build',
